@@ -48,12 +48,18 @@ var cfg = sess.Config{MaxDepth: 120}
 
 const okDeadline = 20 * time.Second
 
+// a pure (memoizable) function that takes a few milliseconds: a failing input is cut by the deadline in the middle of
+// one of its calls, a later succeeding input makes the same calls
+const slowDef = "func zzslow(n) { x = 0; for i = 15000 { x = x + i % 7 }; x + n }"
+const slowCalls = "println(zzslow(1), zzslow(2), zzslow(3), zzslow(4), zzslow(5), zzslow(6), zzslow(7), zzslow(8))"
+
 var leftovers []string
 
 func run(steps []Step, withFailures bool) (results []sess.Res, globals string, failuresOK bool) {
 	leftovers = nil
 	s := sess.New(cfg)
 	s.Run(gen.TypedPrelude)
+	s.Run(slowDef)
 	failuresOK = true
 	for _, st := range steps {
 		if st.Fail != "" {
@@ -77,7 +83,13 @@ func run(steps []Step, withFailures bool) (results []sess.Res, globals string, f
 			}
 			continue
 		}
-		results = append(results, s.RunWith(st.Src, okDeadline))
+		began := time.Now()
+		r := s.RunWith(st.Src, okDeadline)
+		if took := time.Since(began); withFailures && sess.TimedOut(r) && took < okDeadline/4 {
+			// not a deadline of this input: it had 20 s and used a fraction
+			leftovers = append(leftovers, fmt.Sprintf("the succeeding input %q reports a deadline error after %s (its deadline is %s): %v", st.Src, took.Round(time.Millisecond), okDeadline, r.Errs))
+		}
+		results = append(results, r)
 	}
 	return results, s.Globals(), failuresOK
 }
@@ -142,6 +154,7 @@ var failPool = []failing{
 	{"memory-guard", `func(){ [1, 2, 3] * 1000000000 }()`, false, true},
 	{"memory-guard-in-loop", `for zfi = 2 { "abcdefgh" * 100000000000 }`, false, true},
 	{"deadline-loop", `for true { 1 }`, true, true},
+	{"deadline-in-memoizable-calls", `zzslow(1) + zzslow(2) + zzslow(3) + zzslow(4) + zzslow(5) + zzslow(6) + zzslow(7) + zzslow(8)`, true, true},
 	{"deadline-in-func", `func(){ zfn = 0; for true { zfn = zfn + 1 } }()`, true, true},
 	{"deadline-counted", `for zfi = 100000000 { zfi * 2 }`, true, true},
 	{"parse-error", `zf = = 1 )`, false, false},
@@ -203,6 +216,10 @@ func TestHistories(t *testing.T) {
 				c.Steps = append(c.Steps, Step{Src: f.src, Fail: f.kind, Timeout: f.timeout})
 				nfail++
 				deep = deep || f.deep
+				if f.kind == "deadline-in-memoizable-calls" {
+					// the same calls in a succeeding input, before anything else changes what is remembered
+					c.Steps = append(c.Steps, Step{Src: slowCalls})
+				}
 			}
 		}
 		for _, s := range stmts {
@@ -245,6 +262,9 @@ func TestEachKind(t *testing.T) {
 		c.Steps = append(c.Steps, Step{Src: "func show(a) { println(\"in show\", a); for i = 2 { println(i) }; a }"}, Step{Src: "println(show(1))"})
 		for k := 0; k < 12; k++ {
 			c.Steps = append(c.Steps, Step{Src: f.src, Fail: f.kind, Timeout: f.timeout})
+		}
+		if f.kind == "deadline-in-memoizable-calls" {
+			c.Steps = append(c.Steps, Step{Src: slowCalls})
 		}
 		c.Steps = append(c.Steps, Step{Src: "println(show(2))"}, Step{Src: "for j = 3 { println(j) }"}, Step{Src: "x = [1, 2, 3]; x[0] = show(3); println(x)"},
 			Step{Src: "deep = n => { if n <= 0 { return 0 }; 1 + deep(n - 1) }; println(deep(25))"}, Step{Src: probeDef}, Step{Src: probeCall()})
